@@ -57,9 +57,9 @@ out = %s/cfgout.torrent
 align = true
 """ % root))
 q(execute,['create','--config','--config-path',cfg,'-o',root+'/c20a.torrent',d])
-ma=pyben.load(root+'/c20a.torrent')
+ma=pyben.load(root+'/cfgout.torrent' if os.path.exists(root+'/cfgout.torrent') else root+'/c20a.torrent')  # 'out' in the config wins once it is honoured
 print({k:(v if k!='info' else {kk:vv for kk,vv in v.items() if kk not in ('pieces','file tree','files')}) for k,v in ma.items() if k!='piece layers'})
-print(os.path.exists(root+'/cfgout.torrent'))
+print('config out honoured:', os.path.exists(root+'/cfgout.torrent'))
 q(execute,['create','-a','http://a/1','http://a/2','--web-seed','http://w/1','--http-seed','http://h/1','--private','--source','src','--comment','some comment','--piece-length','15','--meta-version','2','-o',root+'/c20b.torrent',d])
 mb=pyben.load(root+'/c20b.torrent')
 print({k:(v if k!='info' else {kk:vv for kk,vv in v.items() if kk not in ('pieces','file tree','files')}) for k,v in mb.items() if k!='piece layers'})
